@@ -804,6 +804,43 @@ def rule_durprec(ctx, rep, rid="R-C10-durprec"):
     r.note("%d Duration accessor call(s) in %d function(s) under visit_duration_literal" % (n, len(seen)))
 
 
+def rule_delimcount(ctx, rep, rid="R-C10-delimcount"):
+    """The renderer spells a tree with more delimiters than the source had (every binary node gets its own parentheses, R-C10-paren).  So
+    the front end must accept or reject by the tree, never by the delimiters that happen to spell it: a token-level pass that singles out
+    bracket tokens (to count nesting, to limit it, to pair them) can accept a source and reject its rendering.  Outside the grammar, no
+    function of the parser compares a token type with a bracket token.  Zero expected."""
+    TT = "ironplc_parser::token::TokenType"
+    DELIMS = {"LeftParen", "RightParen", "LeftBracket", "RightBracket"}
+    r = rep.rule(rid, "outside the grammar no function of the parser singles out bracket tokens ( ( ) [ ] ): acceptance depends on the tree, not on how many delimiters spell it",
+                 floor=0, floor_what="token-level functions that look at bracket tokens")
+    n = 0
+    for b in sorted(ctx.prog.bodies.values(), key=lambda x: x.id):
+        nb = norm(b.id)
+        if b.f["crate"] != "ironplc_parser" or "::test" in nb or "::__parse_" in nb or "::plc_parser::" in nb or b.f.get("exp") or nb.startswith("ironplc_parser::token::"):
+            continue
+        found = set()
+        for i, where, o in b.operands():
+            if o[0] == "c" and len(o) > 3 and isinstance(o[3], dict) and o[1] == TT and o[3].get("variant") in DELIMS:
+                found.add(o[3]["variant"])
+        for pl in b.f.get("promoted", []):
+            for o in pl:
+                if len(o) > 3 and isinstance(o[3], dict) and o[3].get("variant") in DELIMS and TT in str(o[1]):
+                    found.add(o[3]["variant"])
+        # a match on the token type with arms for bracket variants
+        for i in b.reachable(0):
+            si = switch_info(b, i)
+            if si and si["kind"] == "disc" and si.get("adt") == TT:
+                for labs in si["edges"].values():
+                    found |= {l for l in labs if l in DELIMS}
+        if found:
+            n += 1
+            r.finding("%s|looks at %s" % (nb.replace("ironplc_parser::", ""), ",".join(sorted(found))), "%s:%d" % (b.f["file"], b.f["line"]),
+                      "a token-level function singles out bracket tokens: what it decides depends on how many delimiters spell a tree, and the renderer adds delimiters")
+    if not n:
+        r.count_override = 1
+        r.note("no token-level function looks at bracket tokens today (zero expected; positive example: seeded/C10-O)")
+
+
 def run(ctx, rep):
     rep.not_decided += ["parse(render(L)) == L itself (value-level)", "numeric formatting other than the fraction point of reals (durations truncated to whole ms)",
                         "order and multiplicity of the terminals a writer spells (R-C10-tokens decides *which* terminals of a production are spelled by a writer of its node, not where)",
@@ -825,6 +862,17 @@ def run(ctx, rep):
     rule_restructure(ctx, rep)
     from rules import c10_tokens
     c10_tokens.run(ctx, rep)
+    rule_delimcount(ctx, rep)
+    # rendering is total: a renderer that panics on a library the parser produced yields no text at all, so there is nothing to parse back
+    from rules import c04
+    from rules.panic_triage import TRIAGE
+    from rules.c04 import entry_bodies
+    entries = entry_bodies(ctx, rep, ["ironplc_plc2plc::write_to_string"])
+    r_p = rep.rule("R-C10-panic", "the renderer itself (crate ironplc_plc2plc) contains no panic-capable construct that is not discharged on the MIR or justified by a listed "
+                                  "invariant: a library the parser accepted always renders to some text", floor=1, floor_what="panic-capable sites in the renderer")
+    sites_, _ = c04.run_inventory(ctx, rep, r_p, entries, TRIAGE, only=lambda s_: s_.body.f["crate"] == "ironplc_plc2plc")
+    # the indentation counter: every indent() is matched by an outdent() on every path (an unmatched outdent underflows and panics)
+    c04.rule_pair(ctx, rep, rid="R-C10-pair")
     # the renderer never parenthesises a unary expression: that is only right while the grammar binds unary operators tightest
     from rules.c01 import rule_prec
     rule_prec(ctx, rep, ctx.peg, rid="R-C10-prec")
